@@ -34,6 +34,7 @@ type LoadConfig struct {
 
 // World is the resolved program.
 type World struct {
+	useSites map[*ssa.Function][]ssa.Instruction
 	Cfg   LoadConfig
 	Fset  *token.FileSet
 	Pkg   *packages.Package
@@ -148,7 +149,10 @@ func Load(cfg LoadConfig) (*World, error) {
 	}
 	for _, fn := range w.Funcs {
 		canonicaliseComparisons(fn)
+		canonicaliseBranches(fn)
 	}
+	w.indexCallSites()
+	curWorld = w
 	if len(w.Funcs) == 0 {
 		return nil, &loadError{"no functions with bodies found in the package"}
 	}
@@ -567,4 +571,125 @@ func canonicaliseComparisons(fn *ssa.Function) {
 			}
 		}
 	}
+}
+
+
+// canonicaliseBranches turns `if a != b goto T else F` into `if a == b goto F else T` when the comparison has
+// no other user: an inverted condition with swapped branches is then the same SSA as the original. The
+// successor order is part of the block, predecessors and phi edges are untouched, so the CFG is unchanged.
+func canonicaliseBranches(fn *ssa.Function) {
+	for _, b := range fn.Blocks {
+		if len(b.Instrs) == 0 || len(b.Succs) != 2 {
+			continue
+		}
+		iff, ok := b.Instrs[len(b.Instrs)-1].(*ssa.If)
+		if !ok {
+			continue
+		}
+		bo, ok := iff.Cond.(*ssa.BinOp)
+		if !ok || bo.Op != token.NEQ {
+			continue
+		}
+		refs := bo.Referrers()
+		if refs == nil || len(*refs) != 1 {
+			continue
+		}
+		bo.Op = token.EQL
+		b.Succs[0], b.Succs[1] = b.Succs[1], b.Succs[0]
+	}
+}
+
+
+// ---- helper transparency ------------------------------------------------------------------
+//
+// A function of the package that is referenced from exactly one place, and that place is a static
+// call, is a helper someone extracted: its parameters are the arguments of that call and the facts that hold at
+// the call hold throughout its body. The primitives below let rules look through such helpers.
+
+var curWorld *World
+
+func (w *World) indexCallSites() {
+	w.useSites = map[*ssa.Function][]ssa.Instruction{}
+	for _, fn := range w.Funcs {
+		for _, b := range fn.Blocks {
+			for _, in := range b.Instrs {
+				for _, op := range in.Operands(nil) {
+					if op == nil || *op == nil {
+						continue
+					}
+					if f, ok := (*op).(*ssa.Function); ok && w.funcSet[f] {
+						w.useSites[f] = append(w.useSites[f], in)
+					}
+				}
+			}
+		}
+	}
+}
+
+// UniqueCall returns the only call of fn when fn is an unexported package function or method that is used
+// nowhere else (not stored, not passed, not called twice).
+func (w *World) UniqueCall(fn *ssa.Function) *ssa.Call {
+	if w == nil || fn == nil || fn.Parent() != nil || len(fn.FreeVars) > 0 {
+		return nil
+	}
+	if obj := fn.Object(); obj == nil || obj.Exported() {
+		return nil
+	}
+	sites := w.useSites[fn]
+	if len(sites) != 1 {
+		return nil
+	}
+	c, ok := sites[0].(*ssa.Call)
+	if !ok || c.Call.StaticCallee() != fn {
+		return nil
+	}
+	return c
+}
+
+// resolveParam replaces a parameter of an extracted helper by the argument at its only call (transitively).
+func resolveParam(v ssa.Value) ssa.Value {
+	for depth := 0; depth < 4; depth++ {
+		p, ok := v.(*ssa.Parameter)
+		if !ok || curWorld == nil {
+			return v
+		}
+		c := curWorld.UniqueCall(p.Parent())
+		if c == nil {
+			return v
+		}
+		idx := -1
+		for i, q := range p.Parent().Params {
+			if q == p {
+				idx = i
+			}
+		}
+		if idx < 0 || idx >= len(c.Call.Args) {
+			return v
+		}
+		v = c.Call.Args[idx]
+	}
+	return v
+}
+
+// EachInstrDeep visits fn and, transitively, the extracted helpers it calls (unique call site inside the visited set).
+func EachInstrDeep(fn *ssa.Function, f func(ssa.Instruction)) {
+	seen := map[*ssa.Function]bool{}
+	var visit func(g *ssa.Function, depth int)
+	visit = func(g *ssa.Function, depth int) {
+		if seen[g] || depth > 4 {
+			return
+		}
+		seen[g] = true
+		for _, b := range g.Blocks {
+			for _, in := range b.Instrs {
+				f(in)
+				if c, ok := in.(*ssa.Call); ok && curWorld != nil {
+					if h := c.Call.StaticCallee(); h != nil && curWorld.UniqueCall(h) == c {
+						visit(h, depth+1)
+					}
+				}
+			}
+		}
+	}
+	visit(fn, 0)
 }
